@@ -51,6 +51,12 @@ def _build():
             ('maxfloat', 1.7976931348623157e308, None), ('123456.789012', 123456.789012, None),
             ('1e16', 1e16, None), ('12345678.125', 12345678.125, None)]):
         add(E('num:' + nm, N.num(v), hint, rep=nm in ('1', '-1.5', '1e22')))
+    # exponent-form doubles: fractional mantissa x exponents whose digits end in 0 / do not, both signs of the exponent; and doubles
+    # that need all 17 significant digits (errors there exceed the 1e-6 tolerance only for large magnitudes)
+    for v in [1.5e20, 1.5e21, 2.5e30, 1.25e100, 1.5e300, 1e20, 1e100, 2.5e-5, 2.5e-10, 1.5e-20, 1.25e-100, 1.5e-300, 1e-10, 1e-100,
+              1700000000123.456, 1234567890.1234567, 0.30000000000000004, 4503599627370497.5, -1.5e20]:
+        add(E('num:%r' % v, N.num(v), rep=v in (1.5e20, 2.5e-10)))
+    add(E('qty:1.5e+20kW', N.num(1.5e20, 'kW')))
     add(E('num:inf', N.num(float('inf')), rep=True))
     add(E('num:-inf', N.num(float('-inf'))))
     add(E('num:nan', N.num(float('nan')), rep=True))
